@@ -149,7 +149,7 @@ def load_dot(path: Path) -> Graph:
             line = line.rstrip("\n")
             m = _EDGE.match(line)
             if m:
-                g.out.setdefault(m.group(1), []).append((m.group(3), m.group(2)))
+                g.out.setdefault(m.group(1), []).append((m.group(3).replace('\\"', '"'), m.group(2)))
                 continue
             if line.endswith("style = filled]") or ",style = filled]" in line:
                 m = re.match(r'^(-?\d+) \[label="(.*)",style = filled\]$', line)
